@@ -8,6 +8,20 @@ import model_msgs as mm
 
 PERSIST_ADT = "store::PersistPaymentState"
 ATTEMPT_INFO_ADT = "store::AttemptInfo"
+
+
+def _is_adt(name, ref):
+    """the record types may live in a submodule of `store` (`store::persist::AttemptInfo`)"""
+    return name == ref or (isinstance(name, str) and name.startswith("store::") and name.endswith("::" + ref.split("::")[-1]))
+
+
+def _same_module_file(F, n, bfile):
+    """a helper of the store module: same file, or a file of the module's directory (src/store.rs + src/store/*.rs)"""
+    hb = F.by_cdef.get(n)
+    if hb is None or n.startswith("<"):
+        return False
+    f = hb.span.get("f") or ""
+    return f == bfile or (bfile.endswith(".rs") and f.startswith(bfile[:-3] + "/"))
 METHODS = ("add_payment_attempt", "fetch_payment_info", "mark_failed", "mark_succeeded")
 
 
@@ -103,13 +117,13 @@ def extract_writes(F, X, body):
         if s is not None:
             # a record built by a same-file constructor helper (`AttemptInfo::new(..)`) is that aggregate
             bfile = body.span.get("f")
-            s = strip(mm.inline_pure(F, X, s, keep=lambda n, bfile=bfile: F.by_cdef.get(n) is None or F.by_cdef[n].span.get("f") != bfile or n.startswith("<")))
+            s = strip(mm.inline_pure(F, X, s, keep=lambda n, bfile=bfile: not _same_module_file(F, n, bfile)))
             for x in walk(s):
-                if x[0] == "agg" and x[1] == PERSIST_ADT:
+                if x[0] == "agg" and _is_adt(x[1], PERSIST_ADT):
                     w.payload = ("state", x[2])
                     w.payload_expr = x
                     break
-                if x[0] == "agg" and x[1] == ATTEMPT_INFO_ADT:
+                if x[0] == "agg" and _is_adt(x[1], ATTEMPT_INFO_ADT):
                     d = dict(x[3])
                     comp = d.get("completed")
                     w.payload = ("attempt", "closed" if comp and comp[0] == "const" and comp[1] == "true" else "open")
@@ -301,9 +315,16 @@ def w2_free_only_in_mark_failed(C, rep, rid):
     F, X = C.F, C.X
     M = get_model(C)
     n = 0
-    for b, bi, s in F.aggregates(PERSIST_ADT, "Free"):
+    for b, bi, s in [t for nm in sorted(F.adts) if _is_adt(canon(nm), PERSIST_ADT) for t in F.aggregates(canon(nm), "Free")]:
+        if b.def_ in getattr(F, "absorbed", ()):
+            continue                  # a private step spliced into its only caller: its statements are examined there
         n += 1
-        ok = any(F.root_of(b) == d["methods"]["mark_failed"]["root"] for d in M.impls)
+        mf = {d["methods"]["mark_failed"]["root"] for d in M.impls}
+        ok = F.root_of(b) in mf
+        if not ok:
+            # a step of mark_failed split off into a private method (`self.release_payment(..).await`): every caller is mark_failed
+            callers = {F.root_of(hb) for hb in F.code_bodies() for c in hb.calls if (c.resolved or c.name) == F.root_of(b) and not c.noise}
+            ok = bool(callers) and callers <= mf
         rep.ob(rid, ok, F.root_of(b), "construction of the Free marker", where=loc(s["sp"]), how="inside mark_failed",
                detail="" if ok else "the Free marker is produced outside mark_failed (in %s)" % F.root_of(b))
     rep.anchor(rid, "constructions of PersistPaymentState::Free", n, 1)
@@ -360,7 +381,7 @@ def rt_records_roundtrip(C, rep, rid):
     F = C.F
     recs = {}
     for k, b in F.by_cdef.items():
-        m = re.search(r"(Serialize|Deserialize<'de>) for (store::[A-Za-z0-9_]+)>", k)
+        m = re.search(r"(Serialize|Deserialize<'de>) for (store::[A-Za-z0-9_:]+)>", k)
         if not m:
             continue
         side = "ser" if m.group(1) == "Serialize" else "de"
